@@ -109,6 +109,19 @@ func rlkLeaf(c *engine.Chooser, name string, k cfg) {
 			Stream: func(a multiparty.RelinearizationKeyGenShare, wrap func(io.Reader) io.Reader) (multiparty.RelinearizationKeyGenShare, error) {
 				return mp.StreamHop[multiparty.RelinearizationKeyGenShare](a, wrap)
 			},
+			Used: func(which int) multiparty.RelinearizationKeyGenShare {
+				// the other round's share shape too: a round-one receiver (two polynomials per row) for a round-two share and conversely
+				_, u1, u2 := protos[0].AllocateShare(mp.UsedShapes(params, which))
+				r := u2
+				if round == 2 {
+					r = u1
+				}
+				mp.FillGadget(params, &r.GadgetCiphertext, name, "used-receiver", which, round)
+				return r
+			},
+			Into: func(a multiparty.RelinearizationKeyGenShare, recv *multiparty.RelinearizationKeyGenShare) error {
+				return hopGadget(a.MarshalBinary, recv.UnmarshalBinary)
+			},
 			Flat: flat(tag),
 		}
 	}
